@@ -16,6 +16,7 @@ import KVerif.Drv.C20 -- C20
 import KVerif.Drv.C15
 import KVerif.Drv.C11 -- C11
 import KVerif.Drv.C06
+import KVerif.Drv.C08
 open KVerif.Drv
 
 /-- kvdrv <prop>: one case line in, one `M <model> ## S <spec>` line out. -/
@@ -45,6 +46,8 @@ def dispatch (prop : String) : Option (String → String × String) :=
   | "C11" => some C11.run -- C11
   | "C06" => some C06.run
   | "C06o" => some C06.runOracle
+  | "C08" => some C08.run
+  | "C08o" => some C08.runOracle
   | _ => none
 
 partial def loop (h : IO.FS.Stream) (out : IO.FS.Stream) (f : String → String × String) : IO Unit := do
